@@ -95,7 +95,7 @@ impl Check for C03 {
     fn cases(&self, tier: Tier) -> u64 {
         match tier {
             Tier::Quick => 400,
-            Tier::Thorough => 6000,
+            Tier::Thorough => 3000,
         }
     }
     fn langs(&self) -> Vec<&'static str> {
